@@ -1144,6 +1144,11 @@ class _FnState:
             return x if isinstance(x, ast.Name) else None
 
         def rec(x: ast.AST) -> None:
+            if isinstance(x, ast.Call) and pf.dotted(x.func) == 'id' and len(x.args) == 1 and not x.keywords:
+                # the identity of an object says nothing about its content (the object may have been mutated since): `id(v)` is an input of its own,
+                # it does not stand for `v`
+                out.add(f'id({pf.nsrc(x.args[0])})')
+                return
             if isinstance(x, (ast.Attribute, ast.Subscript)):
                 r = chain_root(x)
                 if r is not None and self.selfname and r.id == self.selfname:
@@ -1390,36 +1395,50 @@ def inline_stream_helpers(m: pf.Module, cls_name: str, fn: pf.FuncDef, stream: s
     selfname = ps[0] if ps else 'self'
     cur = fn
     inlined: List[str] = []
+
+    def resolve(call: ast.Call) -> Optional[Tuple[pf.FuncDef, bool, str]]:
+        """(definition, prepend self, label) of a same-module helper that is handed the stream by this call"""
+        args = list(call.args) + [k.value for k in call.keywords]
+        if not any(isinstance(a, ast.Name) and a.id == stream for a in args):
+            return None
+        f = call.func
+        target: Optional[pf.FuncDef] = None
+        prepend_self = False
+        label = ''
+        if isinstance(f, ast.Attribute) and f.attr not in conv_names and isinstance(f.value, ast.Name):
+            if f.value.id == selfname:
+                target = mro_lookup(cls_name, f.attr)
+                label = f'{cls_name}.{f.attr}'
+                prepend_self = target is not None and 'staticmethod' not in pf.decorator_names(target)
+            elif f.value.id in all_cls:
+                target = mro_lookup(f.value.id, f.attr)
+                label = f'{f.value.id}.{f.attr}'
+        elif isinstance(f, ast.Name) and f.id in top_funcs:
+            target = top_funcs[f.id]
+            label = f.id
+        if target is None:
+            return None
+        decos = pf.decorator_names(target)
+        if any(d not in ('staticmethod', 'typecheck', 'typecheck_method') for d in decos):
+            return None
+        if prepend_self and not param_names(target):
+            return None
+        return target, prepend_self, label
+
     for _ in range(max_rounds):
         work = copy.deepcopy(cur)
+        # a helper call nested in an expression (`return tuple(h(stream, ...))`) is first bound to a temporary, when nothing but plain loads is
+        # evaluated before it in that statement (the order of stream operations is unchanged)
+        from . import c32norm as NRM
+        NRM._hoist(work, lambda c: resolve(c) is not None)
         helpers: Dict[str, pf.FuncDef] = {}
         n_rewritten = 0
         for call in [n for n in ast.walk(work) if isinstance(n, ast.Call)]:
-            args = list(call.args) + [k.value for k in call.keywords]
-            if not any(isinstance(a, ast.Name) and a.id == stream for a in args):
+            r = resolve(call)
+            if r is None:
                 continue
+            target, prepend_self, label = r
             f = call.func
-            target: Optional[pf.FuncDef] = None
-            prepend_self = False
-            label = ''
-            if isinstance(f, ast.Attribute) and f.attr not in conv_names and isinstance(f.value, ast.Name):
-                if f.value.id == selfname:
-                    target = mro_lookup(cls_name, f.attr)
-                    label = f'{cls_name}.{f.attr}'
-                    prepend_self = target is not None and 'staticmethod' not in pf.decorator_names(target)
-                elif f.value.id in all_cls:
-                    target = mro_lookup(f.value.id, f.attr)
-                    label = f'{f.value.id}.{f.attr}'
-            elif isinstance(f, ast.Name) and f.id in top_funcs:
-                target = top_funcs[f.id]
-                label = f.id
-            if target is None:
-                continue
-            decos = pf.decorator_names(target)
-            if any(d not in ('staticmethod', 'typecheck', 'typecheck_method') for d in decos):
-                continue
-            if prepend_self and not param_names(target):
-                continue
             new_name = '__inl_' + label.replace('.', '_')
             if new_name not in helpers:
                 h = copy.deepcopy(target)
@@ -2147,10 +2166,11 @@ def check_missing_region(info: dict, max_n: int = MAX_N, own_order_is_defect: bo
     return None, sources
 
 
-def type_params_passed(classes: Dict[str, ast.ClassDef], cname: str, fn: pf.FuncDef, ctor: ast.Call, vc: ValueClass) -> List[Tuple[str, bool, str]]:
+def type_params_passed(classes: Dict[str, ast.ClassDef], cname: str, fn: pf.FuncDef, ctor: ast.Call, vc: ValueClass) -> List[Tuple[str, Optional[bool], str]]:
     """For every constructor parameter of the value class that is also a parameter of the Hail type (same name as a property / attribute of the
     type class, e.g. Locus(reference_genome=) <-> tlocus.reference_genome, Interval(point_type=) <-> tinterval.point_type): does the decoder pass
-    the type's own value?  [(parameter, ok, what is passed)]"""
+    the type's own value?  [(parameter, ok, what is passed)]; ok is None when what is passed is not recognised (neither the type's own value nor
+    recognisably something else)"""
     ms = methods(classes[cname])
     selfname = param_names(fn)[0] if param_names(fn) else 'self'
     out: List[Tuple[str, bool, str]] = []
@@ -2177,7 +2197,12 @@ def type_params_passed(classes: Dict[str, ast.ClassDef], cname: str, fn: pf.Func
             out.append((p, False, 'nothing (the constructor default)'))
             continue
         r = pf.resolve_expr(fn, passed)
-        ok = pf.nsrc(r) in (f'{selfname}.{p}',) + ((f'{selfname}.{stored}',) if stored else ())
+        ok: Optional[bool] = pf.nsrc(r) in (f'{selfname}.{p}',) + ((f'{selfname}.{stored}',) if stored else ())
+        if not ok and not (isinstance(r, ast.Constant) or (isinstance(r, ast.Attribute) and isinstance(r.value, ast.Name) and r.value.id == selfname)
+                           or (isinstance(r, ast.Name) and not pf.assignments(fn).get(r.id))):
+            # neither the type's own parameter nor something recognisably different (a constant, another attribute of the type, a module-level name):
+            # the caller declines
+            ok = None
         out.append((p, ok, f'`{pf.nsrc(passed)}`'))
     return out
 
